@@ -233,7 +233,9 @@ def run_replay(rp):
         kwargs = {k: resolve_arg(a, objs) for k, a in call.get("kwargs", {}).items()}
         before, _ = abstract(objs)
         raised = None
-        events = []
+        lst = None
+        if rp.get("listeners") == "recorder":
+            lst = wellformed.MirrorListener(wellformed.closure(list(objs.values())))
         try:
             m = call["method"]
             if m.startswith("set:"):
@@ -244,6 +246,9 @@ def run_replay(rp):
                 getattr(recv, m)(*args, **kwargs)
         except Exception as e:
             raised = e
+        finally:
+            if lst is not None:
+                lst.deregister_all_listeners()
         after, extra = abstract(objs)
         for g, o in extra.items():
             objs[g] = o
@@ -268,6 +273,17 @@ def run_replay(rp):
                 type(recv).__name__, call["method"], call["args"], type(raised).__name__,
                 str(raised)[:80], diffs[:5])
             return bool(diffs), txt
+        if kind in ("mirror", "phantom", "before"):
+            how = "raised %s" % type(raised).__name__ if raised else "returned"
+            head = "%s.%s(%s) %s; announcements %s" % (type(recv).__name__, call["method"],
+                                                         call["args"], how, lst.events)
+            if kind == "phantom":
+                return bool(raised is not None and lst.events), head
+            if kind == "before":
+                return bool(lst.not_before), head + "; already in effect when announced: %s" % lst.not_before
+            probs = wellformed.mirror_problems(lst, wellformed.closure(list(objs.values())),
+                                               skip_outer=rp["check"].get("skip_outer", False))
+            return bool(probs), head + "; " + "; ".join(sorted(set(probs))[:4])
         if kind == "perm":
             f = rp["check"]["field"]
             g = call["self"]
